@@ -249,16 +249,20 @@ func verifC18Diff(before, after map[string]string, sb string) (path, kind, detai
 		case !oka:
 			return rel, "deleted", b
 		case a != b:
-			// name the attribute class that changed
-			kind := "changed"
+			// name the attribute classes that changed (ctime only if nothing else did)
+			var changed []string
 			fb, fa := strings.Fields(b), strings.Fields(a)
 			for i := range fb {
 				if i < len(fa) && fb[i] != fa[i] {
-					kind = "changed:" + strings.SplitN(fb[i], "=", 2)[0]
-					break
+					if name := strings.SplitN(fb[i], "=", 2)[0]; name != "ctime" {
+						changed = append(changed, name)
+					}
 				}
 			}
-			return rel, kind, b + "  =>  " + a
+			if len(changed) == 0 {
+				changed = []string{"ctime"}
+			}
+			return rel, "changed:" + strings.Join(changed, "+"), b + "  =>  " + a
 		}
 	}
 	return "", "", ""
